@@ -160,6 +160,7 @@ def analyse(res):
     job = res["job"]
     viols, summary, incon = [], None, None
     last_case = None
+    digests = {}
     for line in res["out"].splitlines():
         if not line.startswith("@@"):
             continue
@@ -173,6 +174,8 @@ def analyse(res):
             summary = o
         elif o.get("t") == "case":
             last_case = o.get("case")
+        elif o.get("t") == "digest":
+            digests[o["key"]] = o["val"]
     err = res["err"]
     if res.get("error"):
         return viols, summary, "cannot start: " + res["error"]
@@ -200,6 +203,7 @@ def analyse(res):
                 incon = f"shard ended with {how}: " + tail(err, 4)
         else:
             incon = "no summary line"
+    res["digests"] = digests
     return viols, summary, incon
 
 
@@ -302,6 +306,32 @@ def run_property(prop, tier, seed, only_job=None):
                 incon.append(f"{key} shard {r['shard']}: monitor observed nothing")
         for sig, wit in viols:
             viol_all.append((r, sig, wit))
+    # cross-variant digests (C20): every variant must report the same digest for the same corpus item
+    if plan.get("cross_variant_digest"):
+        table = {}
+        for r in results:
+            v = r["job"]["variant"]
+            for k, val in r.get("digests", {}).items():
+                table.setdefault((r["job"]["monitor"], k), {})[v] = val
+        variants = sorted({r["job"]["variant"] for r in results})
+        compared = 0
+        for (mon, k), vals in sorted(table.items()):
+            if len(vals) != len(variants):
+                incon.append(f"digest {k} missing in variants {sorted(set(variants) - set(vals))}")
+                continue
+            compared += 1
+            if len(set(vals.values())) != 1:
+                ref = vals[variants[0]]
+                bad = [v for v in variants if vals[v] != ref]
+                # attach to the first result of the deviating variant
+                r0 = next(r for r in results if r["job"]["variant"] == bad[0] and k in r.get("digests", {}))
+                viol_all.append((r0, f"{mon}:digest-differs-between-configurations:{k.split(':')[0]}:{k.split(':')[1]}",
+                                 f"corpus item {k}: " + ", ".join(f"{v}={vals[v]}" for v in variants)))
+        counters["digests_compared_across_variants"] = compared
+        counters["variants_compared"] = len(variants)
+        if compared == 0:
+            incon.append("no digests compared")
+
     # required counters (events the monitor exists for)
     for name in plan.get("require_counters", {}).get(tier, plan.get("require_counters", {}).get("all", [])):
         if counters.get(name, 0) == 0:
